@@ -81,7 +81,7 @@ pub fn mk_core(me: u8, stakes: &[Stake]) -> Env {
 }
 
 pub fn any_digest() -> Digest {
-    Digest(crypto::DBytes(kani::any()))
+    Digest(crypto::DBytes(vwit::any_bytes::<8>()))
 }
 pub fn sig(signer: u8, d: &Digest) -> Signature {
     Signature { part1: key(signer).0, part2: (d.0).0 }
@@ -147,12 +147,12 @@ pub fn inv(c: &Core) -> bool {
 }
 /// Arbitrary scalar state satisfying Inv.
 pub fn any_state(env: &mut Env) {
-    env.core.round = kani::any();
-    env.core.last_voted_round = kani::any();
-    env.core.last_committed_round = kani::any();
-    env.core.high_qc = QC { hash: any_digest(), round: kani::any(), votes: Vec::new() };
-    kani::assume(inv(&env.core));
-    kani::assume(env.core.last_committed_round <= env.core.high_qc.round);
+    env.core.round = vwit::any_u64();
+    env.core.last_voted_round = vwit::any_u64();
+    env.core.last_committed_round = vwit::any_u64();
+    env.core.high_qc = QC { hash: any_digest(), round: vwit::any_u64(), votes: Vec::new() };
+    vwit::assume(inv(&env.core));
+    vwit::assume(env.core.last_committed_round <= env.core.high_qc.round);
 }
 
 /// Stub for `alloc::fmt::format` (used with -Z stubbing): error messages built with format!/to_string are
